@@ -29,6 +29,7 @@ func phasesFor(prop string) []phaseDef {
 				return []*Scenario{{Property: "C01", Phase: "memory", Doc: genDoc(r, docMax(r))}}
 			}},
 			{"large", "plain", 800, 16000, func(r *Rng, i int) []*Scenario { return genStreamLarge(r, "C01", "large", 0.2, 0.1) }},
+			{"huge", "plain", 48, 480, func(r *Rng, i int) []*Scenario { return genStreamHuge(r, "C01", "huge", 0.2, 0.1) }},
 			{"trunc-enum", "plain", 400, 12000, func(r *Rng, i int) []*Scenario { return genEnumK(r, "C01", "trunc-enum", "early-eof") }},
 			{"part-enum", "plain", 1000, 20000, func(r *Rng, i int) []*Scenario { return genEnumPartitions(r, "C01", "part-enum") }},
 		}
@@ -39,6 +40,7 @@ func phasesFor(prop string) []phaseDef {
 			{"B", "plain", 100000, 1200000, func(r *Rng, i int) []*Scenario { return genStream(r, "C08", "B", false, 0.25, 0.75) }},
 			{"B-knob", "knob", 100000, 1200000, func(r *Rng, i int) []*Scenario { return genStream(r, "C08", "B-knob", true, 0.25, 0.75) }},
 			{"large", "plain", 1000, 16000, func(r *Rng, i int) []*Scenario { return genStreamLarge(r, "C08", "large", 0.15, 0.35) }},
+			{"huge", "plain", 64, 640, func(r *Rng, i int) []*Scenario { return genStreamHuge(r, "C08", "huge", 0.15, 0.35) }},
 			{"B-enum", "knob", 400, 16000, func(r *Rng, i int) []*Scenario { return genEnumK(r, "C08", "B-enum", "error") }},
 			{"part-enum", "plain", 2500, 40000, func(r *Rng, i int) []*Scenario { return genEnumPartitions(r, "C08", "part-enum") }},
 		}
@@ -123,6 +125,7 @@ func genStream(r *Rng, prop, phase string, knob bool, pEarly, pErr float64) []*S
 	rs.Ops, rs.Family = genSchedule(r, doc, limit, pts)
 	rs.Scribble = genScribble(r)
 	rs.Rich = r.Chance(0.2)
+	rs.Consumer = genConsumer(r)
 	s.Reader = rs
 	if knob {
 		s.Knobs = map[string]int{"chunkSize": chunkKnobs[r.Intn(len(chunkKnobs))]}
@@ -140,6 +143,18 @@ func genStream(r *Rng, prop, phase string, knob bool, pEarly, pErr float64) []*S
 }
 
 var scribbleKinds = []string{"garbage", "newline", "nul", "data"}
+
+// genConsumer: three runs in ten complete every block between two NextBlock
+// calls (two-pass recipe), one of them also renders and formats it at once.
+func genConsumer(r *Rng) string {
+	switch x := r.Intn(10); {
+	case x < 2:
+		return "eager"
+	case x < 3:
+		return "eager-use"
+	}
+	return ""
+}
 
 // genScribble: one run in four uses a reader that treats the unfilled part of
 // the slice it is handed as scratch space.
@@ -252,6 +267,7 @@ func genStreamLarge(r *Rng, prop, phase string, pEarly, pErr float64) []*Scenari
 		rs.Ops = cutsToOps(cuts, limit)
 	}
 	rs.Scribble = genScribble(r)
+	rs.Consumer = genConsumer(r)
 	s.Reader = rs
 	return []*Scenario{s}
 }
@@ -282,6 +298,9 @@ func genEnumK(r *Rng, prop, phase, kind string) []*Scenario {
 			rs.Scribble = scribbleKinds[(k/3)%len(scribbleKinds)]
 		}
 		rs.Rich = k%4 == 2
+		if k%5 == 3 {
+			rs.Consumer = []string{"eager", "eager-use"}[(k/5)%2]
+		}
 		if kind == "error" {
 			rs.Fault.Err = faultErrKinds[(k+len(doc))%len(faultErrKinds)]
 		}
@@ -680,6 +699,10 @@ func evaluate(s *Scenario, st *runStats) (fail *Failure) {
 	nontrivial := false
 	applyKnobs(s.Knobs)
 	defer applyKnobs(nil)
+	if len(s.Doc) > 256<<10 {
+		// megabyte documents: collect after each (a pure function of the history)
+		defer runtime.GC()
+	}
 	switch s.Property {
 	case "C01", "C08":
 		if s.Phase == "memory" {
@@ -942,6 +965,10 @@ func streamStats(s *Scenario, obs *streamObs, st *runStats) (nontrivial bool) {
 	if s.Reader.Rich {
 		st.Probes["reader_offers_WriterTo_ByteReader_Len"]++
 	}
+	if obs.EagerRewrites > 0 {
+		st.Probes["consumer_completed_blocks_between_NextBlock_calls"] += obs.EagerRewrites
+		st.Probes["consumer_schedule_"+s.Reader.Consumer]++
+	}
 	if rd.DataWithErr > 0 {
 		if s.Reader.Fault.Kind == "error" {
 			st.Faults["data_returned_with_error"]++
@@ -990,5 +1017,5 @@ func streamStats(s *Scenario, obs *streamObs, st *runStats) (nontrivial bool) {
 		st.Probes["calls_after_terminal_error"] += len(obs.ExtraErrs)
 	}
 	return dataReads > 1 || rd.EmptyReads > 0 || s.Reader.Fault.Kind == "error" || s.Reader.Fault.Kind == "early-eof" ||
-		rd.DataWithErr > 0 || len(s.Knobs) > 0 || rd.Scribbled > 0
+		rd.DataWithErr > 0 || len(s.Knobs) > 0 || rd.Scribbled > 0 || obs.EagerRewrites > 0
 }
